@@ -127,7 +127,7 @@ int __wrap_open (const char *path, int flags, ...)
 	if (vl_inlib && sio_fault)
 	{	sf_count_t ans = 0 ; int err = 0 ;
 		sio_ncalls ++ ;
-		if (sio_fault (100, -1, 0, &ans, &err, sio_fault_user)) { errno = err ; return -1 ; }
+		if (sio_fault (SIO_OPEN, -1, 0, &ans, &err, sio_fault_user)) { errno = err ; return -1 ; }
 		}
 	fd = __real_open (path, flags, mode) ;
 	if (fd >= 0 && fd < MAXFD && vl_inlib) { lib_fd [fd] = 1 ; lib_fds ++ ; }
@@ -185,6 +185,60 @@ int __wrap_fstat (int fd, struct stat *st)
 
 int __wrap_ftruncate (int fd, off_t len) { return __real_ftruncate (fd, len) ; }
 int __wrap_fsync (int fd) { return __real_fsync (fd) ; }
+
+/* ------------------------------------------------------------------ stdio (the library's ALAC temporary file) */
+
+FILE  *__real_fopen (const char *, const char *) ;
+int    __real_fclose (FILE *) ;
+size_t __real_fwrite (const void *, size_t, size_t, FILE *) ;
+size_t __real_fread (void *, size_t, size_t, FILE *) ;
+static long lib_files ;
+long sio_lib_files_open (void) { return lib_files ; }
+void sio_reset_files (void) { lib_files = 0 ; }
+
+FILE *__wrap_fopen (const char *path, const char *mode)
+{	FILE *f ;
+	if (vl_inlib && sio_fault)
+	{	sf_count_t ans = 0 ; int err = 0 ;
+		sio_ncalls ++ ;
+		if (sio_fault (SIO_FOPEN, -1, 0, &ans, &err, sio_fault_user)) { errno = err ; return NULL ; }
+		}
+	f = __real_fopen (path, mode) ;
+	if (f && vl_inlib) lib_files ++ ;
+	return f ;
+}
+
+int __wrap_fclose (FILE *f)
+{	if (vl_inlib && lib_files > 0) lib_files -- ;
+	return __real_fclose (f) ;
+}
+
+size_t __wrap_fwrite (const void *p, size_t sz, size_t n, FILE *f)
+{	if (vl_inlib && sio_fault && f != stdout && f != stderr)
+	{	sf_count_t ans = 0 ; int err = 0 ;
+		sio_ncalls ++ ;
+		if (sio_fault (SIO_FWRITE, -1, (sf_count_t) (sz * n), &ans, &err, sio_fault_user))
+		{	if (ans < 0) { errno = err ; return 0 ; }
+			if (sz && (size_t) ans / sz < n) n = (size_t) ans / sz ;
+			if (n == 0) return 0 ;
+			return __real_fwrite (p, sz, n, f) ;
+			}
+		}
+	return __real_fwrite (p, sz, n, f) ;
+}
+
+size_t __wrap_fread (void *p, size_t sz, size_t n, FILE *f)
+{	if (vl_inlib && sio_fault)
+	{	sf_count_t ans = 0 ; int err = 0 ;
+		sio_ncalls ++ ;
+		if (sio_fault (SIO_FREAD, -1, (sf_count_t) (sz * n), &ans, &err, sio_fault_user))
+		{	if (ans < 0) { errno = err ; return 0 ; }
+			if (sz && (size_t) ans / sz < n) n = (size_t) ans / sz ;
+			if (n == 0) return 0 ;
+			}
+		}
+	return __real_fread (p, sz, n, f) ;
+}
 
 int  sio_memfd (const char *name) { return (int) syscall (SYS_memfd_create, name, 0) ; }
 int  sio_real_close (int fd) { return __real_close (fd) ; }
